@@ -5,6 +5,7 @@ import (
 	"go/constant"
 	"go/types"
 	"path/filepath"
+	"sort"
 	"strings"
 
 	"verif/tools/internal/core"
@@ -18,6 +19,7 @@ type FC struct {
 	N    *ir.Normalizer
 	Path string
 	nf   map[string]string
+	attr []attributed
 }
 
 var fcCache = map[string]*FC{}
@@ -254,4 +256,80 @@ func reachesItself(prog *ir.Program, g *ir.Func) bool {
 		return found
 	}
 	return visit(g)
+}
+
+// Attribution of helper bodies.  A helper added since the review is inlined into every normal form; the rules that
+// walk RAW bodies (who-may-reference / who-may-write / who-may-call tables, frozen per function) see it as a
+// function of its own, which no table lists.  Attributed() gives such rules the same view the normal forms have:
+// the body of a new, inlinable helper is attributed to each reviewed function that (transitively) refers to it;
+// a reviewed function is attributed to itself; a new helper nobody refers to is dropped.
+type attributed struct {
+	Owner *ir.Func // the function the table knows
+	Body  *ir.Func // the body to walk
+}
+
+// IsNewHelper: fn was added since the review and is inlined into every normal form that calls it; a rule that
+// walks the normal form of every function skips it (its callers' forms contain it).
+func (f *FC) IsNewHelper(fn *ir.Func) bool {
+	if _, ok := f.N.Inline[fn.Key]; !ok {
+		return false
+	}
+	base, has := baselineFuncs[filepath.Base(f.M.Dir)]
+	return has && fn.Generated && !base[fn.Name]
+}
+
+func (f *FC) Attributed() []attributed {
+	if f.attr != nil {
+		return f.attr
+	}
+	isNew := func(g *ir.Func) bool {
+		_, ok := f.N.Inline[g.Key]
+		if !ok {
+			return false
+		}
+		base, has := baselineFuncs[filepath.Base(f.M.Dir)]
+		return has && g.Generated && !base[g.Name]
+	}
+	// raw references
+	callers := map[string]map[*ir.Func]bool{}
+	for _, fn := range f.Prog.Funcs {
+		fn := fn
+		ir.WalkFunc(fn, func(t ir.Term) bool {
+			if fr, ok := t.(*ir.FuncRef); ok {
+				if callers[fr.Key] == nil {
+					callers[fr.Key] = map[*ir.Func]bool{}
+				}
+				callers[fr.Key][fn] = true
+			}
+			return true
+		})
+	}
+	var owners func(g *ir.Func, seen map[*ir.Func]bool) []*ir.Func
+	owners = func(g *ir.Func, seen map[*ir.Func]bool) []*ir.Func {
+		var res []*ir.Func
+		for cl := range callers[g.Key] {
+			if seen[cl] {
+				continue
+			}
+			seen[cl] = true
+			if isNew(cl) {
+				res = append(res, owners(cl, seen)...)
+			} else {
+				res = append(res, cl)
+			}
+		}
+		return res
+	}
+	for _, fn := range f.Prog.Funcs {
+		if !isNew(fn) {
+			f.attr = append(f.attr, attributed{fn, fn})
+			continue
+		}
+		os := owners(fn, map[*ir.Func]bool{fn: true})
+		sort.Slice(os, func(i, j int) bool { return os[i].Key < os[j].Key })
+		for _, o := range os {
+			f.attr = append(f.attr, attributed{o, fn})
+		}
+	}
+	return f.attr
 }
